@@ -415,3 +415,60 @@ def fold_python_specials(idx: Index):
     and_t = Record("AndType", {"kind": "and", "items": [_ref("Base"), _ref("Sub")], "id_": "and"})
     run("and", "_add_and_type", [and_t, "AndClass", [base, mix, sub]], own_expected + ["base_uri"])
     return out
+
+
+def fold_python_and_types(idx: Index):
+    """TypesCodeGenerator._add_and_types on a synthetic model in which two requests and a notification use the *same*
+    `and` combination: every one of them needs its own <Name>Options / <Name>Params class (METHOD_TO_TYPES names them).
+    -> (class names handed to _add_and_type, expected class names)"""
+    m = idx.get(P_PYUTILS)
+    cls = m.classes.get("TypesCodeGenerator")
+    if cls is None:
+        raise AnalysisError(f"{P_PYUTILS}: TypesCodeGenerator not found")
+    methods = {x.name: x for x in cls.body if isinstance(x, ast.FunctionDef)}
+    if "_add_and_types" not in methods:
+        raise AnalysisError(f"{P_PYUTILS}: _add_and_types not found")
+
+    # the model's own hand-written equality of type nodes (AndType / ReferenceType compare structurally)
+    mm_ = idx.modules.get("generator/model.py")
+    mclasses = {}
+    if mm_ is not None:
+        for cn_, c_ in mm_.classes.items():
+            mclasses[cn_] = {x.name: x for x in c_.body if isinstance(x, ast.FunctionDef)}
+
+    def R(name):
+        r = _ref(name)
+        r.classes = mclasses
+        return r
+
+    def AND():
+        return Record("AndType", {"kind": "and", "items": [R("WorkDoneProgressOptions"), R("TextDocumentRegistrationOptions")],
+                                  "id_": "and"}, mclasses)
+
+    def msg(method, type_name, **kw):
+        base = {"method": method, "typeName": type_name, "params": None, "registrationOptions": None, "result": None,
+                "partialResult": None, "errorData": None, "documentation": None, "since": None, "proposed": None,
+                "deprecated": None, "messageDirection": "clientToServer", "registrationMethod": None, "id_": "m-" + method}
+        base.update(kw)
+        return Record("Message", base)
+    a1, a2, a3, a4 = AND(), AND(), AND(), AND()
+    # structural equality of the model's type nodes (hand-written __eq__ in model.py compares items only)
+    for a in (a1, a2, a3, a4):
+        a.fields["__eqkey__"] = "and:WorkDoneProgressOptions,TextDocumentRegistrationOptions"
+    reqs = [msg("textDocument/colorPresentation", "ColorPresentationRequest", registrationOptions=a1),
+            msg("textDocument/seedThing", "SeedThingRequest", registrationOptions=a2, params=a3)]
+    nots = [msg("textDocument/seedNote", "SeedNoteNotification", registrationOptions=a4)]
+    spec = Record("LSPModel", {"structures": [], "enumerations": [], "typeAliases": [], "requests": reqs, "notifications": nots})
+    it = Interp(m.tree, name=P_PYUTILS)
+    got = []
+    stubs = {"_add_and_type": ("host", lambda type_def, name, *a, **k: got.append(name)),
+             "_has_type": ("host", lambda *a, **k: False), "_lsp_model": spec}
+    own = {k: v for k, v in methods.items() if k not in stubs}
+    self_rec = Record("TypesCodeGenerator", stubs, {"TypesCodeGenerator": own})
+    it.classes["TypesCodeGenerator"] = own
+    try:
+        it.call(methods["_add_and_types"], [self_rec, spec])
+    except Raised as e:
+        return (f"raises {e.exc_name}", None)
+    want = sorted(["ColorPresentationRequestOptions", "SeedThingRequestOptions", "SeedThingRequestParams", "SeedNoteNotificationOptions"])
+    return sorted(got), want
